@@ -104,6 +104,8 @@ package pogreb
 //@   ensures vsize: le32(contents(data), off(data)+2) == uint32(len(value)) | uint32(ite(rt == recordTypeDelete, 0x80000000, 0))
 //@   ensures key: forall j int :: 0 <= j && j < len(key) ==> data[6+j] == key[j]
 //@   ensures value: forall j int :: 0 <= j && j < len(value) ==> data[6+len(key)+j] == value[j]
+//@   ensures keybytes: sameBytes(contents(data), off(data)+6, contents(key), off(key), len(key))
+//@   ensures valuebytes: sameBytes(contents(data), off(data)+6+len(key), contents(value), off(value), len(value))
 //@   ensures crc: le32(contents(data), off(data)+len(data)-4) == crc(contents(data), off(data), len(data)-4)
 //@   at call PutUint32@2: hint checksum-of-prefix: len(data) == 10 + len(key) + len(value) && checksum == crc(contents(data), off(data), len(data)-4)
 //@   flag lossless
